@@ -157,7 +157,7 @@ class Adapter:
                     "lin": r * c.getArea() / area0 if isinstance(r, float) else r,
                     "T": (c.temperatureInC - gen.T0) / gen.DT,
                     "ndr": r,
-                    "mass": c.getMass() / m0,
+                    "mass": 0.0 if w["broken"] else c.getMass() / m0,  # not observed in a half-updated assembly (see ObsMass)
                     "lower": "" if links is None or c not in links or links[c].lower is None else links[c].lower.name,
                     "upper": "" if links is None or c not in links or links[c].upper is None else links[c].upper.name,
                 })
